@@ -40,6 +40,9 @@ class PoolPlan:
     kill_at_yield: int = -1  # whole-process death at this scheduler step
     yields: int = 0
     timed_out: list = field(default_factory=list)
+    parent_only: bool = False  # the kill at `kill_at_yield` hits the parent alone (workers become orphans)
+    parent_dead: bool = False
+    adopt_orphans: bool = False  # this run overlaps with the orphans of an earlier one
     script: list | None = None  # explicit schedule: -1 = start the next queued task, i = advance task i (replay / shrinking)
     tparams: dict | None = None  # {task: [own steps, further steps of the rest]} for timeout tasks
 
@@ -124,6 +127,8 @@ class SimPool:
         self._closed = True
 
     def join(self, timeout=None) -> None:  # noqa: ANN001, ARG002
+        if getattr(self.plan, "parent_dead", False):
+            return  # nobody is left to wait for the workers
         for ls in self._active:
             ls.drain()
         self._active = []
